@@ -329,6 +329,26 @@ def gen_programs(rng, tier, menus):
         progs.append(Program(arch, "builder", 0, ["newlabel", "elabel L0 3", "edelta L0 L0 3", "elabel L7 3", "elabel L7 8"], "corner"))
         progs.append(Program(arch, "builder", 0, ["newsection", "section S1", "embed 01", "section S0", "embed 02", "section S1", "embed 03",
                                                   "remove 1", "section S0", "embed 04", "addbefore 1 0", "section S1", "embed 05"], "corner"))
+    # shapes that must stay in the quick tier (each caught an independently seeded change):
+    #  * a 6-operand instruction followed by 4- and 5-operand ones (stale op4/op5 scratch in serialize_to)
+    #  * the last section node removed, then re-entry into the section in front of it (stale _next_section of the new last section)
+    #  * remove_nodes over a range that contains the cursor, then an emit
+    def mi(arch, name):
+        for n, iid, toks in menus[arch][0]:
+            if n == name:
+                return "inst %d %s" % (iid, " ".join(list(toks) + ["-"] * (6 - len(toks))))
+        raise vlib.BuildError("menu of %s has no %s" % (arch, name))
+    for arch in ("x64", "x86"):
+        progs.append(Program(arch, "builder", 0, [mi(arch, "pcmpestri"), mi(arch, "vblendvps"), mi(arch, "vpermil2ps"), mi(arch, "vblendvps"),
+                                                  mi(arch, "pcmpestrm"), mi(arch, "mov"), mi(arch, "vfmaddps")], "corner"))
+    progs.append(Program("a64", "builder", 0, [mi("a64", "casp"), mi("a64", "madd"), mi("a64", "add"), mi("a64", "ext"), mi("a64", "casp"),
+                                               mi("a64", "ccmp")], "corner"))
+    for arch in ("x64", "a64"):
+        progs.append(Program(arch, "builder", 0, ["newsection", "newsection", "embed 01", "section S1", "embed 02", "section S2", "embed 03",
+                                                  "remove 4", "section S1", "embed 04", "section S0", "embed 05", "section S1", "embed 06",
+                                                  "addnode 4", "section S0", "embed 07", "section S1", "embed 08"], "corner"))
+        progs.append(Program(arch, "builder", 0, ["embed 01", "embed 02", "embed 03", "embed 04", "cursor 3", "removerange 2 3", "embed 05",
+                                                  "cursor 4", "removerange 1 4", "embed 06", "cursor 6", "removerange 5 6", "embed 07"], "corner"))
     # witness of the open finding C08-K2 (cross-section label delta under section re-entry)
     progs.append(Program("x64", "builder", 0, ["newlabel", "newlabel", "newsection", "section S1", "edelta L1 L0 8", "section S0",
                                                "bind L0", "embed 0102", "bind L1"], "corner"))
@@ -546,6 +566,44 @@ def has_cross_section_delta(s_lines):
     return any(a in bound_in and b in bound_in and bound_in[a] == bound_in[b] != s for a, b, s in deltas)
 
 
+def cross_section_delta_sections(s_lines):
+    """sections in which such an embed_label_delta was issued"""
+    cur = 0
+    bound_in, deltas = {}, []
+    for o in s_lines:
+        w = o.split()
+        if w[0] == "section" and w[1][1:].isdigit():
+            cur = int(w[1][1:])
+        elif w[0] == "bind":
+            bound_in[w[1]] = cur
+        elif w[0] == "edelta":
+            deltas.append((w[1], w[2], cur))
+    return {s for a, b, s in deltas if a in bound_in and b in bound_in and bound_in[a] == bound_in[b] != s}
+
+
+def is_k2(r):
+    """finding C08-K2 and nothing else: assembler given the verbatim calls, relocated image identical, same finalize error, and the
+    dumps differ only in the section bytes / expression relocation records of sections in which a cross-section label delta was issued"""
+    if r.get("kind") != "code" or r.get("how") != "verbatim" or not r.get("image_equal"):
+        return False
+    secs = cross_section_delta_sections(r.get("s", []))
+    if not secs:
+        return False
+    a = [l for l in r["a"]["verbatim"] if l.startswith("D ")]
+    b = [l for l in r["b"] if l.startswith("D ")]
+    if [l for l in r["a"]["verbatim"] if l.startswith("F ")] != [l for l in r["b"] if l.startswith("F ")]:
+        return False
+    diff = set(a) ^ set(b)
+    for l in diff:
+        w = l.split()
+        if w[1] == "sec" and int(w[2]) in secs:
+            continue
+        if w[1] == "reloc" and w[2] == "t1" and int(w[3][4:].split("+")[0]) in secs and " expr " in l + " ":
+            continue
+        return False
+    return True
+
+
 def run(res):
     rng = vlib.rng_for(res.seed, PID)
     res.assumptions += [
@@ -592,8 +650,6 @@ def run(res):
             nontriv.add("\n".join(p.ops))
         if r["verdict"] != "good":
             bad.append((p, r))
-        elif r["corr"]:
-            corr.append((p, r))
     res.coverage["evaluations"] = nops
     res.coverage["programs"] = len(progs)
     res.coverage["distinct_nontrivial"] = len(nontriv)
@@ -608,12 +664,20 @@ def run(res):
     good = [(p, r) for p, r in zip(progs, results) if r["verdict"] == "good"]
     res.add_samples([{"program": p.lines(), "finalize": [l for l in r["b"] if l[0] in "FD"][:6]} for p, r in good[5:8]])
 
+    # (4) an empty run is never a pass
+    judged = sum(1 for r in results if r["verdict"] is not None and (r["verdict"] == "good" or r["verdict"].startswith("BAD")))
+    if not progs or nops == 0 or judged == 0:
+        res.violation("nothing was executed / judged (%d programs, %d ops, %d verdicts)" % (len(progs), nops, judged),
+                      {"programs": len(progs)}, False, key="empty")
+
+    open_keys = {e.get("key") for e in vlib.load_known_findings(PID) if e.get("status") == "open"}
     reported = set()
+    unknown_bad = set()       # ids of programs with a violation that is NOT an open known finding
     for p, r in bad:
         kind = r["kind"] or "other"
-        key = kind
-        if kind == "code" and r.get("how") == "verbatim" and r.get("image_equal") and has_cross_section_delta(r.get("s", [])):
-            key = "xsection-label-delta"
+        key = "xsection-label-delta" if is_k2(r) else kind
+        if key not in open_keys:
+            unknown_bad.add(id(p))
         if key in reported:
             continue
         reported.add(key)
@@ -623,12 +687,14 @@ def run(res):
         res.violation("%s %s %s: %s" % (p.arch, p.emitter, kind, v[:600]),
                       {"ops": sp.lines(), "verdict": v, "how": "tools/check.py replay <this file>"},
                       found_input=(kind != "protocol"), key=key)
-    if not bad and corr:
+    # (1) a correspondence difference is reported unless an unknown violation already explains the same program;
+    #     open known findings never hide it
+    corr = [(p, r) for p, r in zip(progs, results) if r.get("corr") and id(p) not in unknown_bad]
+    if corr:
         p, r = corr[0]
-        res.violation("correspondence model/implementation differs (%d programs), first: %s; the monitor judges every explored program good"
-                      % (len(corr), r["corr"]), {"ops": p.lines(), "unchecked": "correspondence Model/Builder.lean ~ builder.cpp"},
-                      False, key="corr")
-    elif not bad and broken:
+        res.violation("correspondence model/implementation differs (%d programs), first: %s" % (len(corr), r["corr"]),
+                      {"ops": p.lines(), "unchecked": "correspondence Model/Builder.lean ~ builder.cpp"}, False, key="corr")
+    if broken:
         res.violation("proof obligation no longer checks: " + " | ".join(broken)[:1500], {"unchecked": broken}, False, key="obligation")
 
 
